@@ -71,6 +71,8 @@ def all_cases(ctx):
         mk("createatomic", "present", "small", "big", "tmpdir", "srcerr", seed=s),
         mk("createatomic", "absent", "small", "small", "tmpdir", "srcerr", seed=s),
         mk("fetch", "present", "small", "small", "tmpdir", "short", seed=s),
+        mk("fetch", "present", "small", "big", "tmpdir", "shortstream", seed=s),
+        mk("fetch", "absent", "small", "small", "tmpdir", "shortstream", seed=s),
     ]
     for prim in ("fstree", "createatomic", "copyatomic", "replaceatomic", "writefile"):
         for dst in ("absent", "mode"):
@@ -103,6 +105,7 @@ def all_cases(ctx):
     quick.append(base[0])
     quick.append(base[1 + s % (len(base) - 1)])
     quick.append([c for c in extra if c["fault"] == "srcerr"][s % 2])
+    quick.append([c for c in extra if c["fault"] == "shortstream"][s % 2])
     return quick, thorough
 
 
@@ -308,6 +311,11 @@ def run(ctx):
     for sc, h in zip(full_scripts, full):
         c = sc["case"]
         ordinals(h)
+        if c["fault"] == "shortstream":
+            # every attempt of this download fails by itself (and is retried after a back-off): the complete trace and
+            # the final tree are judged, no further faults are injected
+            want[c["id"]] = set()
+            continue
         pts = fault_points(h, MUTATING)
         want[c["id"]] = {(p["sys"], p["j"]) for p in pts}
         for p in pts:
